@@ -1,79 +1,38 @@
 # Per-property configuration of the checks.  Table-driven: ./check reads this.
-#
-# models: the correspondence runs that decide the property.  Each names a harness package
-#   (under /verif/harness), the Go test that generates/executes histories, the model name the
-#   OCaml driver dispatches on, the Coq module holding run_check_<model>, and sizes per tier.
-# coq: the files whose Qed-closed statements are the proof obligations of the property
-#   (Common/ is always included).
-# pid: the number the Coq monitors use for the property.
+# Every file vlib/props/*.py defines PROPS = {"Cxx": {...}}; see vlib/props/C19.py for the fields:
+#   pid         the number the Coq monitors use for the property
+#   coq         the theory files whose Qed-closed statements are the proof obligations (Common/Base.v always included)
+#   props_file  the statement-only file (Theorem ... exact lemma. Qed. Print Assumptions ...)
+#   models      the correspondence runs that decide the property: harness package, Go test name,
+#               model name the OCaml driver dispatches on, Coq module holding run_check_<model>, sizes per tier
+#   trusted, assumptions   texts for the evidence file
+#   meta        texts for MANIFEST.json (text, note, technique)
+import importlib
+import os
+import pkgutil
 
-COMMON_COQ = ["Common/Base.v"]
+from vlib.common import COMMON_COQ, TRUSTED_BASE_COMMON  # noqa: F401
 
-TRUSTED_BASE_COMMON = [
-    "Coq 8.16.1 kernel (coqc); vm_compute used in finite sweeps and in the extraction cross-check; native_compute not used",
-    "axioms: none (Print Assumptions under every property theorem prints 'Closed under the global context'; checked on every run)",
-    "extraction: ExtrOcamlBasic only (Extract Inductive bool/option/unit/list/prod/sumbool/sumor, Extract Inlined Constant andb/orb); nat/positive/N/Z stay extracted inductives; no Extract Constant of our own; OCaml 4.13.1; /verif/ocaml/driver.ml; a sample of every run is re-evaluated by vm_compute inside Coq",
-    "the Go correspondence harness under /verif/harness (differential execution of the real code from /repo's working tree), Go 1.26.8 toolchain for the harness build",
-]
-
-
-def _nt_pure(h):
-    # non-trivial: the single call carries at least 3 payload integers
-    return len(h["evs"]) >= 1 and len(h["evs"][0]) >= 4
+PROPS = {}
+_d = os.path.join(os.path.dirname(os.path.abspath(__file__)), "props")
+for _m in sorted(pkgutil.iter_modules([_d]), key=lambda m: m.name):
+    _mod = importlib.import_module("vlib.props." + _m.name)
+    PROPS.update(getattr(_mod, "PROPS", {}))
 
 
-def _nt_sched(h):
-    # non-trivial scheduled history: at least 8 events and at least one observation with a blocked actor (code 2)
-    return len(h["evs"]) >= 8 and any(" 2" in (" " + o) for o in h["obs"])
+def all_models():
+    seen, out = set(), []
+    for p in sorted(PROPS):
+        for m in PROPS[p]["models"]:
+            if m["name"] not in seen:
+                seen.add(m["name"])
+                out.append(m)
+    return out
 
 
-_CSYNC_COQ = ["Common/ListLemmas.v", "CSync/RWModel.v", "CSync/RWProofs.v", "CSync/RWSpec.v", "CSync/MModel.v", "CSync/MProofs.v", "CSync/MSpec.v"]
-_CSYNC_RULE = ("implementation-driven random gate-level histories (Lock/TryLock read+write, one critical section at a time, "
-               "context cancellations, release calls incl. double releases) + corpus; distinct = distinct event sequence; "
-               "non-trivial = >= 8 events and some actor observed blocked")
-_CSYNC_MODELS = [
-    dict(name="rwmutex", pkg="./csyncx", test="TestRWMutex", coq_mod="CSync.RWSpec", run_check="run_check_rwmutex",
-         corpus="rwmutex", quick_n=1500, thorough_n=150000, nontrivial=_nt_sched, rule=_CSYNC_RULE),
-    dict(name="mutex", pkg="./csyncx", test="TestMutex", coq_mod="CSync.MSpec", run_check="run_check_mutex",
-         corpus="mutex", quick_n=1500, thorough_n=150000, nontrivial=_nt_sched, rule=_CSYNC_RULE),
-]
-_SCHED_TRUSTED = [
-    "gate placement: verif-tagged schedule points at Broadcast.HoldLock entry/exit (/repo broadcast/verif_on.go); a critical section is one model step (granularity justified by the lock discipline, C13)",
-    "Go 1.26.8 testing/synctest (fake clock, exact quiescence), goroutine-id parsing in the harness",
-    "modelled, not verified: Go's sync.Mutex, atomic, channel and select semantics; contexts as cancellation flags",
-]
-
-PROPS = {
-    "C01": dict(
-        pid=1, coq=_CSYNC_COQ + ["CSync/Props_C01.v"], props_file="CSync/Props_C01.v", models=_CSYNC_MODELS,
-        trusted=_SCHED_TRUSTED,
-        assumptions=["the harness realises the eager schedule (woken waiters run to their next gate at once); the theorems cover every placement of wake-ups",
-                     "'both select cases ready' is covered by the theorems (CancelWake/Wake are separate events) but not produced by the harness"],
-    ),
-    "C02": dict(
-        pid=2, coq=_CSYNC_COQ + ["CSync/Props_C02.v"], props_file="CSync/Props_C02.v", models=_CSYNC_MODELS,
-        trusted=_SCHED_TRUSTED,
-        assumptions=["liveness stated as quiescence safety: no grantable waiter is blocked in any state without enabled internal steps",
-                     "termination of internal steps is argued, not yet proved, for csync (each section moves an actor forward; only release/give-up sections broadcast)"],
-    ),
-    "C19": dict(
-        pid=19,
-        coq=["Pure/Model.v", "Pure/Spec.v", "Pure/Proofs.v", "Pure/Props_C19.v"],
-        props_file="Pure/Props_C19.v",
-        models=[
-            dict(name="pure", pkg="./pure", test="TestPure", coq_mod="Pure.Spec", run_check="run_check_pure",
-                 corpus="pure", quick_n=6000, thorough_n=600000, nontrivial=_nt_pure, tags="",
-                 rule="one call per case (pad with capacity variants and dirty tail, unpad on arbitrary/crafted input, "
-                      "round trip, Prefix/TrimPrefix over 0-6 strings with shared prefixes incl. bytes >= 0x80, reader "
-                      "chunkings incl. 0 and > 8, seed splits); distinct = distinct event line; non-trivial = at least 3 payload integers"),
-        ],
-        trusted=[
-            "modelled, not verified: SHA-256 and ChaCha8 (Go's; parameters H/src of the model; exercised by the seed-split cases), "
-            "Go slice/capacity semantics as written in pad_mem, strings.HasPrefix/TrimPrefix as is_prefix/skipn",
-        ],
-        assumptions=[
-            "bytes are 0..255 (harness); the model is over arbitrary N",
-            "different seed data yields different streams (oracle assumption used only by the seed-split cases)",
-        ],
-    ),
-}
+def all_coq_files():
+    out = []
+    for f in COMMON_COQ + [f for p in sorted(PROPS) for f in PROPS[p]["coq"]]:
+        if f not in out:
+            out.append(f)
+    return out
